@@ -15,10 +15,6 @@ _API = tuple(
 _HARNESS = os.path.dirname(os.path.abspath(__file__)) + os.sep
 
 
-class InjectedPiquasso(Exception):
-    """Placeholder; rebound to a PiquassoException subclass on first use."""
-
-
 def exception_kinds():
     from piquasso.api.exceptions import InvalidParameter
 
@@ -131,9 +127,6 @@ def wrap_step(step, monitor):
     wrapped.__name__ = getattr(step, "__name__", "step")
     wrapped.__wrapped__ = step
     return wrapped
-
-
-_CLASS_CACHE = {}
 
 
 def instrumented_class(simcls, monitor):
